@@ -1,9 +1,13 @@
 (* C10 for parsed texts: the round-trip theorems of Proofs/ShortenProofs.v for the objects parsed from two
    texts, with the object-level hypotheses the parser guarantees discharged (wf, one host kind, no NUL,
    no lone empty segment, user info / port only with a host), every host kind (the results are compared
-   as the texts uriToString writes, so the spelling of an IP literal does not matter), and one more
-   failing shape, which only IP-literal hosts exhibit: kf_brackets (the source's registered name is the
-   text of the base's IPvFuture literal).
+   as the texts uriToString writes, so the spelling of an IP literal does not matter).
+
+   History: lifting the restriction to hosts without IP data exposed a failing shape (the source's
+   registered name is the text of the base's IPvFuture literal: uriEqualsAuthority compared "v1.x" with the
+   host text of "[v1.x]").  uriEqualsAuthority was repaired (src/UriShorten.c, Model/Shorten.v): a registered
+   name is only compared with a host without IP data.  The hypothesis that excluded the shape is gone;
+   equals_authority_same_kind and the positive example roundtrip_regname_vs_literal remain.
 
      1. what the parser guarantees;  2. what uriToString reads of an object;  3. a shared authority;
      4. the walk (walk_shape);  5. the carved round trip for every host kind;  6. witnesses *)
@@ -58,6 +62,14 @@ Theorem parsed_c10_good s u : parse s = POk u -> no_ip u = true -> c10_good u = 
 Proof.
   intros H Hn. unfold c10_good.
   rewrite (parsed_wf s u H), Hn, (parsed_auth_nonul s u H), (parsed_nonul_segs s u H). cbn [andb].
+  destruct (is_host_set u) eqn:Hh; [reflexivity|].
+  destruct (parsed_hostless_bare s u H Hh) as [-> ->]. reflexivity.
+Qed.
+
+(* ... and a base of any host kind *)
+Theorem parsed_c10_base s u : parse s = POk u -> c10_base u = true.
+Proof.
+  intros H. unfold c10_base. rewrite (parsed_wf s u H). cbn [andb].
   destruct (is_host_set u) eqn:Hh; [reflexivity|].
   destruct (parsed_hostless_bare s u H Hh) as [-> ->]. reflexivity.
 Qed.
@@ -127,26 +139,28 @@ Proof.
 Qed.
 
 (* ================================================================ 3. a shared authority *)
-(* both hosts are bracketed literals (IPv6, IPvFuture), or neither is *)
-Definition same_brackets (a b : uri) : bool := Bool.eqb (is_lit a) (is_lit b).
-
-(* the shape: same scheme, uriEqualsAuthority says "equal", one host is a bracketed literal and the other
-   is not.  uriEqualsAuthority compares the host in the kind of its FIRST argument; a registered name is
-   compared as host text, and the host text of an IPvFuture literal "[v1.x]" is "v1.x", a registered name *)
-Definition kf_brackets (s b : uri) : bool :=
-  range_eqb (scheme s) (scheme b) && equals_authority s b && negb (same_brackets s b).
-
-Lemma shared_authority_shown s b S B : parse s = POk S -> parse b = POk B ->
-  equals_authority S B = true -> same_brackets S B = true -> shown_auth B = shown_auth S.
+(* when uriEqualsAuthority says "equal" the two hosts are of the same kind *)
+Lemma equals_authority_same_kind a b : one_kind a = true -> one_kind b = true -> equals_authority a b = true ->
+  is_some (ip4 a) = is_some (ip4 b) /\ is_some (ip6 a) = is_some (ip6 b)
+  /\ is_some (ipFuture a) = is_some (ipFuture b).
 Proof.
-  intros HS HB He Hbr.
+  unfold one_kind, equals_authority. intros Ka Kb He. apply andb_true_iff in He. destruct He as [_ He].
+  destruct (ip4 a), (ip6 a), (ipFuture a); try discriminate Ka;
+    destruct (ip4 b), (ip6 b), (ipFuture b); try discriminate Kb; try discriminate He; repeat split.
+Qed.
+
+(* ... and uriToString writes the same authority for both: user info, host, port *)
+Lemma shared_authority_shown s b S B : parse s = POk S -> parse b = POk B ->
+  equals_authority S B = true -> shown_auth B = shown_auth S.
+Proof.
+  intros HS HB He.
   apply (equals_authority_fields S B (parsed_auth_nonul s S HS)) in He. destruct He as (Eu & Ep & Eh).
   pose proof (parsed_one_kind b B HB) as KB.
   destruct (ParseWf.parse_wf s S HS) as (_ & FS & _ & _). destruct (ParseWf.parse_wf b B HB) as (_ & FB & _ & _).
   pose proof (ParseWf.wf_is_host_set S FS) as HhS. pose proof (ParseWf.wf_is_host_set B FB) as HhB.
   destruct FS as [_ FS]. destruct FB as [_ FB].
   unfold shown_auth. rewrite <- Eu, <- Ep, HhS, HhB. unfold NT.host_pieces.
-  unfold host_same in Eh. unfold same_brackets, is_lit in Hbr. unfold one_kind in KB.
+  unfold host_same in Eh. unfold one_kind in KB.
   destruct (ip4 S) as [x4|] eqn:S4.
   { rewrite Eh in *. destruct (ip6 B), (ipFuture B); try discriminate KB.
     destruct (hostText S); [|exfalso; destruct FS as (F1 & F2 & F3); congruence].
@@ -159,11 +173,7 @@ Proof.
   { rewrite Eh in *. destruct (ip4 B), (ip6 B); try discriminate KB.
     destruct (hostText S); [|exfalso; destruct FS as (F1 & F2 & F3); congruence].
     destruct (hostText B); [|exfalso; destruct FB as (F1 & F2 & F3); congruence]. reflexivity. }
-  cbn [is_some orb] in Hbr. rewrite <- Eh in *.
-  destruct (ip6 B); [discriminate Hbr|]. destruct (ipFuture B); [discriminate Hbr|].
-  destruct (hostText S) as [h|].
-  - destruct FS as [_ FS]. destruct FB as [_ FB]. rewrite FB, <- FS. reflexivity.
-  - destruct FB as (-> & _ & _). reflexivity.
+  destruct Eh as (Eh & -> & -> & ->). rewrite <- Eh. reflexivity.
 Qed.
 
 (* ================================================================ 4. the walk *)
@@ -192,14 +202,14 @@ Proof. exact (PA.parse_to_text_full s u). Qed.
 
 (* parse, parse, create the reference, resolve it, write: the source text *)
 Theorem roundtrip_parsed_walk s b S B : parse s = POk S -> parse b = POk B ->
-  walk_shape S B = true -> same_brackets S B = true ->
+  walk_shape S B = true ->
   let r := snd (remove_base false S B) in
   let back := snd (add_base false r B) in
   fst (remove_base false S B) = URI_SUCCESS
   /\ fst (add_base false r B) = URI_SUCCESS
   /\ to_text back = Spec.Recompose.canon_ip6 s.
 Proof.
-  intros HS HB Hw Hbr. cbv zeta.
+  intros HS HB Hw. cbv zeta.
   rewrite <- (walk_ok_parsed s b S B HS HB) in Hw.
   destruct (roundtrip_walk S B Hw) as (A1 & A2 & B1 & B2 & B3 & B4 & B5 & B6).
   split; [exact A1|]. split; [exact A2|].
@@ -207,15 +217,15 @@ Proof.
   rewrite (shown_auth_fields _ _ B2), (shown_auth_fields _ _ (auth_fields_copy empty_uri B (parsed_one_kind b B HB))).
   assert (equals_authority S B = true) as He.
   { unfold walk_ok in Hw. repeat (apply andb_true_iff in Hw; destruct Hw as [Hw ?]). assumption. }
-  exact (shared_authority_shown s b S B HS HB He Hbr).
+  exact (shared_authority_shown s b S B HS HB He).
 Qed.
 
 Corollary roundtrip_parsed_walk_no_ip6 s b S B : parse s = POk S -> parse b = POk B ->
-  walk_shape S B = true -> same_brackets S B = true -> ip6 S = None ->
+  walk_shape S B = true -> ip6 S = None ->
   to_text (snd (add_base false (snd (remove_base false S B)) B)) = s.
 Proof.
-  intros HS HB Hw Hbr H6.
-  rewrite (proj2 (proj2 (roundtrip_parsed_walk s b S B HS HB Hw Hbr))).
+  intros HS HB Hw H6.
+  rewrite (proj2 (proj2 (roundtrip_parsed_walk s b S B HS HB Hw))).
   exact (ParseRecompose.canon_ip6_id s S HS H6).
 Qed.
 
@@ -226,22 +236,22 @@ Proof. destruct (scheme S); [|congruence]. destruct (scheme B); [|congruence]. r
 
 Theorem roundtrip_parsed_carved m s b S B : parse s = POk S -> parse b = POk B ->
   scheme S <> None -> scheme B <> None ->
-  c10_failing_shape m S B = false -> kf_brackets S B = false ->
+  c10_failing_shape m S B = false ->
   let r := snd (remove_base m S B) in
   fst (remove_base m S B) = URI_SUCCESS
   /\ fst (add_base false r B) = URI_SUCCESS
   /\ same_text_target (snd (add_base false r B)) S.
 Proof.
-  intros HS HB Hs Hb Hshape Hkb. cbv zeta.
+  intros HS HB Hs Hb Hshape. cbv zeta.
   split; [exact (remove_base_success m S B Hs Hb)|].
   pose proof (parsed_wf s S HS) as Ws. pose proof (parsed_wf b B HB) as Wb.
   pose proof (parsed_one_kind s S HS) as Ks. pose proof (parsed_one_kind b B HB) as Kb.
   pose proof (parsed_nonul_segs s S HS) as Nps.
-  unfold c10_failing_shape in Hshape. unfold kf_brackets in Hkb.
-  destruct (range_eqb (scheme S) (scheme B)) eqn:He; cbn [negb andb] in Hshape, Hkb.
+  unfold c10_failing_shape in Hshape.
+  destruct (range_eqb (scheme S) (scheme B)) eqn:He; cbn [negb andb] in Hshape.
   2:{ destruct (roundtrip_copy_target m S B Hs Hb (or_introl He) Ws Ks) as [A T].
       split; [exact A|exact (same_target_text _ _ T)]. }
-  destruct (equals_authority S B) eqn:Ea; cbn [negb andb] in Hshape, Hkb.
+  destruct (equals_authority S B) eqn:Ea; cbn [negb andb] in Hshape.
   2:{ destruct (is_host_set S) eqn:Hhs.
       - destruct (roundtrip_other_authority_target m S B Hs Hb He Ea Hhs Ws Ks) as [A T].
         split; [exact A|exact (same_target_text _ _ T)].
@@ -251,8 +261,7 @@ Proof.
         + exfalso. destruct (parsed_hostless_bare s S HS Hhs) as [U1 U2].
           destruct (parsed_hostless_bare b B HB Hhb) as [U3 U4].
           rewrite (hostless_equal_authority S B Hhs Hhb U1 U2 U3 U4) in Ea. discriminate Ea. }
-  apply negb_false_iff in Hkb.
-  pose proof (shared_authority_shown s b S B HS HB Ea Hkb) as Esh.
+  pose proof (shared_authority_shown s b S B HS HB Ea) as Esh.
   assert (is_host_set S = is_host_set B) as Hhost
     by (unfold shown_auth in Esh; injection Esh as _ E _ _; symmetry; exact E).
   assert (forall back, auth_fields back = auth_fields (copy_authority empty_uri B) -> shown_auth back = shown_auth S) as Hau.
@@ -287,16 +296,16 @@ Proof.
       split; [exact A0|]. apply same_text_target_parts; try assumption. exact (Hau _ B2).
 Qed.
 
-(* the object-level carved theorem for parsed texts: [c10_good] is [no_ip] *)
+(* the object-level carved theorem for parsed texts: [c10_good] is [no_ip], of the source only *)
 Theorem roundtrip_parsed_carved_no_ip m s b S B : parse s = POk S -> parse b = POk B ->
-  no_ip S = true -> no_ip B = true -> scheme S <> None -> scheme B <> None ->
+  no_ip S = true -> scheme S <> None -> scheme B <> None ->
   c10_failing_shape m S B = false ->
   let r := snd (remove_base m S B) in
   fst (remove_base m S B) = URI_SUCCESS
   /\ fst (add_base false r B) = URI_SUCCESS
   /\ same_target (snd (add_base false r B)) S.
 Proof.
-  intros HS HB Ns Nb. apply roundtrip_carved; [exact (parsed_c10_good s S HS Ns)|exact (parsed_c10_good b B HB Nb)].
+  intros HS HB Ns. apply roundtrip_carved; [exact (parsed_c10_good s S HS Ns)|exact (parsed_c10_base b B HB)].
 Qed.
 
 (* the cases in which the reference is (a copy of) the source: the text comes back as it is *)
@@ -331,27 +340,25 @@ Qed.
 (* ================================================================ 6. witnesses *)
 Local Open Scope string_scope.
 
-(* the new shape is a failure: source "s://v1.x/a/b" (a registered name), base "s://[v1.x]/a/c" (an
-   IPvFuture literal).  uriEqualsAuthority compares the source's registered name with the host text of
-   the base, "v1.x": equal.  The reference is "b", and it resolves to "s://[v1.x]/a/b" *)
-Lemma roundtrip_brackets_refuted :
+(* the former failing shape: source "s://v1.x/a/b" (a registered name), base "s://[v1.x]/a/c" (an
+   IPvFuture literal with the same text).  uriEqualsAuthority says "different", the reference keeps the
+   source's authority, "//v1.x/a/b", and resolves to the source *)
+Lemma roundtrip_regname_vs_literal :
   exists S B, parse (txt "s://v1.x/a/b") = POk S /\ parse (txt "s://[v1.x]/a/c") = POk B
-    /\ walk_shape S B = true /\ c10_failing_shape false S B = false /\ kf_brackets S B = true
-    /\ to_text (snd (remove_base false S B)) = txt "b"
+    /\ equals_authority S B = false /\ walk_shape S B = false /\ c10_failing_shape false S B = false
+    /\ to_text (snd (remove_base false S B)) = txt "//v1.x/a/b"
     /\ fst (add_base false (snd (remove_base false S B)) B) = URI_SUCCESS
-    /\ to_text (snd (add_base false (snd (remove_base false S B)) B)) = txt "s://[v1.x]/a/b"
-    /\ ~ same_text_target (snd (add_base false (snd (remove_base false S B)) B)) S.
+    /\ to_text (snd (add_base false (snd (remove_base false S B)) B)) = txt "s://v1.x/a/b"
+    /\ same_text_target (snd (add_base false (snd (remove_base false S B)) B)) S.
 Proof.
   do 2 eexists. split; [vm_compute; reflexivity|]. split; [vm_compute; reflexivity|].
-  repeat (split; [vm_compute; reflexivity|]).
-  unfold same_text_target. intros E. vm_compute in E. discriminate E.
+  repeat (split; [vm_compute; reflexivity|]). vm_compute. reflexivity.
 Qed.
 
-(* the other way round the authorities are not equal (an IPvFuture literal is compared as such) and the
-   round trip holds *)
-Lemma roundtrip_brackets_other_way :
+(* the other way round *)
+Lemma roundtrip_literal_vs_regname :
   exists S B, parse (txt "s://[v1.x]/a/b") = POk S /\ parse (txt "s://v1.x/a/c") = POk B
-    /\ equals_authority S B = false /\ kf_brackets S B = false /\ c10_failing_shape false S B = false
+    /\ equals_authority S B = false /\ c10_failing_shape false S B = false
     /\ to_text (snd (remove_base false S B)) = txt "//[v1.x]/a/b"
     /\ to_text (snd (add_base false (snd (remove_base false S B)) B)) = txt "s://[v1.x]/a/b".
 Proof. do 2 eexists. split; [vm_compute; reflexivity|]. split; [vm_compute; reflexivity|]. repeat split. Qed.
@@ -360,7 +367,7 @@ Proof. do 2 eexists. split; [vm_compute; reflexivity|]. split; [vm_compute; refl
    texts written do not -- why the statements for every host kind compare texts *)
 Lemma roundtrip_ip6_spelling :
   exists S B, parse (txt "s://[::1]/a/b") = POk S /\ parse (txt "s://[0::1]/a/c") = POk B
-    /\ walk_shape S B = true /\ same_brackets S B = true /\ no_ip S = false
+    /\ walk_shape S B = true /\ no_ip S = false
     /\ ~ same_target (snd (add_base false (snd (remove_base false S B)) B)) S
     /\ to_text (snd (add_base false (snd (remove_base false S B)) B))
        = Spec.Recompose.canon_ip6 (txt "s://[::1]/a/b").
